@@ -10,6 +10,9 @@ def const_value(o):
         if ty['k'] == 'int' and ty['s']:
             w = ty['bits']
             if bits >= (1 << (w - 1)): bits -= (1 << w)
+        if ty['k'] == 'float':
+            import struct
+            return struct.unpack('<f', struct.pack('<I', bits))[0] if ty['bits'] == 32 else struct.unpack('<d', struct.pack('<Q', bits))[0]
         return bits
     return None
 
